@@ -8,9 +8,14 @@ package ggql
 //@ -- Locate (kind / location name of a schema element) is under contract in verif_contracts_c13.go; the [kind]
 //@ -- postconditions below rely on its clauses object, scalar, interface, union, enum, input-object.
 
+//@ -- C17 "the answer is the same whichever resolver strategy the application uses": what an introspection Resolve returns is
+//@ -- resolved by the library itself - null, a scalar representation, one of the built-in list kinds, or a library object that is
+//@ -- its own Resolver / ListResolver - and never a value the resolve walk would hand to the application's AnyResolver
+//@ spec libValue(v interface{}) bool = slicelike(v) ==> builtinList(v)
 //@ func (*Scalar).Resolve
 //@   props C17
 //@   check panic {C03}
+//@   ensures[library-resolved] libValue(result)
 //@   requires t != nil && field != nil
 //@   ensures[kind] field.Name == "kind" ==> result == box("SCALAR") && err == nil
 //@   ensures[name] field.Name == "name" ==> result == box(t.N) && err == nil
@@ -102,6 +107,7 @@ package ggql
 //@ func (*Input).Resolve
 //@   props C17
 //@   check panic {C03}
+//@   ensures[library-resolved] libValue(result)
 //@   requires t != nil && field != nil
 //@   ensures[kind] field.Name == "kind" ==> result == box("INPUT_OBJECT") && err == nil
 //@   ensures[name] field.Name == "name" ==> result == box(t.N) && err == nil
@@ -118,6 +124,7 @@ package ggql
 //@ func (*List).Resolve
 //@   props C17
 //@   check panic {C03}
+//@   ensures[library-resolved] libValue(result)
 //@   requires t != nil && field != nil
 //@   results result, err
 //@   ensures[kind] field.Name == "kind" ==> result == box("LIST") && err == nil
@@ -133,6 +140,7 @@ package ggql
 //@ func (*NonNull).Resolve
 //@   props C17
 //@   check panic {C03}
+//@   ensures[library-resolved] libValue(result)
 //@   requires t != nil && field != nil
 //@   results result, err
 //@   ensures[kind] field.Name == "kind" ==> result == box("NON_NULL") && err == nil
@@ -149,6 +157,7 @@ package ggql
 //@ func (*Arg).Resolve
 //@   props C17
 //@   check panic {C03}
+//@   ensures[library-resolved] libValue(result)
 //@   requires a != nil && field != nil
 //@   ensures[name] field.Name == "name" ==> result == box(a.N) && err == nil
 //@   ensures[description] field.Name == "description" ==> result == box(a.Desc) && err == nil
@@ -159,6 +168,7 @@ package ggql
 //@ func (*InputField).Resolve
 //@   props C17
 //@   check panic {C03}
+//@   ensures[library-resolved] libValue(result)
 //@   requires f != nil && field != nil
 //@   ensures[name] field.Name == "name" ==> result == box(f.N) && err == nil
 //@   ensures[description] field.Name == "description" ==> result == box(f.Desc) && err == nil
@@ -174,6 +184,7 @@ package ggql
 //@ func (*FieldDef).Resolve
 //@   props C17
 //@   check panic {C03}
+//@   ensures[library-resolved] libValue(result)
 //@   requires f != nil && field != nil
 //@   ensures[name] field.Name == "name" ==> result == box(f.N) && err == nil
 //@   ensures[description] field.Name == "description" ==> result == box(f.Desc) && err == nil
@@ -184,10 +195,12 @@ package ggql
 //@   ensures[reason] field.Name == "deprecationReason" ==> err == nil && (forall i int :: onlyDep(f.Dirs, i, len(f.Dirs)) && f.Dirs[i].Args["reason"] != nil ==> result == f.Dirs[i].Args["reason"].Value)
 //@   assigns nothing
 //@   loop 0: invariant[bounds] 0 <= rangeindex+1 && rangeindex+1 <= len(f.Dirs)
+//@           invariant[library-resolved] libValue(result)
 //@           invariant[isbool] is(result, bool)
 //@           invariant[flag] as(result, bool) <==> depUpTo(f.Dirs, rangeindex+1)
 //@           decreases len(f.Dirs) - rangeindex
 //@   loop 1: invariant[bounds] 0 <= rangeindex+1 && rangeindex+1 <= len(f.Dirs)
+//@           invariant[library-resolved] libValue(result)
 //@           invariant[none] !depUpTo(f.Dirs, rangeindex+1) ==> result == nil
 //@           invariant[reason] forall i int :: onlyDep(f.Dirs, i, rangeindex+1) && f.Dirs[i].Args["reason"] != nil ==> result == f.Dirs[i].Args["reason"].Value
 //@           decreases len(f.Dirs) - rangeindex
@@ -195,6 +208,7 @@ package ggql
 //@ func (*EnumValue).Resolve
 //@   props C17
 //@   check panic {C03}
+//@   ensures[library-resolved] libValue(result)
 //@   requires ev != nil && field != nil
 //@   ensures[name] field.Name == "name" ==> is(result, string) && as(result, string) == ev.Value && err == nil
 //@   ensures[description] field.Name == "description" ==> result == box(ev.Description) && err == nil
@@ -203,10 +217,12 @@ package ggql
 //@   ensures[reason] field.Name == "deprecationReason" ==> err == nil && (forall i int :: onlyDep(ev.Directives, i, len(ev.Directives)) && ev.Directives[i].Args["reason"] != nil ==> result == ev.Directives[i].Args["reason"].Value)
 //@   assigns nothing
 //@   loop 0: invariant[bounds] 0 <= rangeindex+1 && rangeindex+1 <= len(ev.Directives)
+//@           invariant[library-resolved] libValue(result)
 //@           invariant[isbool] is(result, bool)
 //@           invariant[flag] as(result, bool) <==> depUpTo(ev.Directives, rangeindex+1)
 //@           decreases len(ev.Directives) - rangeindex
 //@   loop 1: invariant[bounds] 0 <= rangeindex+1 && rangeindex+1 <= len(ev.Directives)
+//@           invariant[library-resolved] libValue(result)
 //@           invariant[none] !depUpTo(ev.Directives, rangeindex+1) ==> result == nil
 //@           invariant[reason] forall i int :: onlyDep(ev.Directives, i, rangeindex+1) && ev.Directives[i].Args["reason"] != nil ==> result == ev.Directives[i].Args["reason"].Value
 //@           decreases len(ev.Directives) - rangeindex
@@ -224,6 +240,7 @@ package ggql
 //@ func (*Directive).Resolve
 //@   props C17
 //@   check panic {C03}
+//@   ensures[library-resolved] libValue(result)
 //@   check frame {C17}
 //@   requires t != nil && field != nil
 //@   ensures[name] field.Name == "name" ==> result == box(t.N) && err == nil
@@ -289,6 +306,7 @@ package ggql
 //@ func (*Object).Resolve
 //@   props C17
 //@   check panic {C03}
+//@   ensures[library-resolved] libValue(result)
 //@   check frame {C17}
 //@   requires t != nil && field != nil
 //@   -- memory-model assumption: the embedded field list of an existing object lies below the allocation bound
@@ -359,6 +377,7 @@ package ggql
 //@ func (*Interface).Resolve
 //@   props C17
 //@   check panic {C03}
+//@   ensures[library-resolved] libValue(result)
 //@   check frame {C17}
 //@   requires t != nil && field != nil
 //@   requires t.Root != nil && t.Root.types != nil
@@ -377,6 +396,7 @@ package ggql
 //@ func (*Union).Resolve
 //@   props C17
 //@   check panic {C03}
+//@   ensures[library-resolved] libValue(result)
 //@   check frame {C17}
 //@   requires t != nil && field != nil
 //@   ensures[kind] field.Name == "kind" ==> result == box("UNION") && err == nil
@@ -395,6 +415,7 @@ package ggql
 //@ func (*Root).Resolve
 //@   props C17
 //@   check panic {C03}
+//@   ensures[library-resolved] libValue(result)
 //@   requires root != nil && field != nil
 //@   ensures[types] field.Name == "types" ==> result == box(root.types) && err == nil
 //@   ensures[directives] field.Name == "directives" ==> result == box(root.dirs) && err == nil
@@ -410,6 +431,7 @@ package ggql
 //@ func (*Enum).Resolve
 //@   props C17
 //@   check panic {C03}
+//@   ensures[library-resolved] libValue(result)
 //@   check frame {C17}
 //@   requires t != nil && field != nil
 //@   requires allocated(t.values)
